@@ -74,7 +74,7 @@ class _State:
         self.prefix = prefix
         self.pos = 0
         self.trace: list = []
-        self.pc: list = []
+        self.pc: list = list(explorer.pre)   # preconditions are part of every path condition
         self.fresh = 0
         self.notes: dict = {}
         s = explorer.solver
